@@ -384,8 +384,64 @@ func runC05(c *Ctx) {
 				return
 			}
 			idx++
-			if !whole(src, bhA, 0) {
-				bad = append(bad, "headerIndex is built at "+c.at(in)+" from a slice that is not the one FetchHeaderAncestors returned")
+			if whole(src, bhA, 0) {
+				return
+			}
+			// a window blockHeaders[k:] is fine when the position stored is
+			// shifted by the same k: position = index in the fetched slice
+			var offOf func(v ssa.Value, d int) (int64, bool)
+			offOf = func(v ssa.Value, d int) (int64, bool) {
+				if d > 6 {
+					return 0, false
+				}
+				if whole(v, bhA, 0) {
+					return 0, true
+				}
+				switch x := v.(type) {
+				case *ssa.Slice:
+					k := int64(0)
+					if x.Low != nil {
+						kk, isC := ir.ConstInt(x.Low)
+						if !isC {
+							return 0, false
+						}
+						k = kk
+					}
+					o, ok := offOf(x.X, d+1)
+					return o + k, ok
+				case *ssa.Phi:
+					var off int64
+					for i, e := range x.Edges {
+						o, ok := offOf(e, d+1)
+						if !ok || (i > 0 && o != off) {
+							return 0, false
+						}
+						off = o
+					}
+					return off, len(x.Edges) > 0
+				}
+				return 0, false
+			}
+			okWin := false
+			if off, ok := offOf(src, 0); ok {
+				if h := ir.LoopHeaderOf(in.Block()); h != nil {
+					if lf := loopFormOf(h); lf.problem == "" {
+						var elemIdx ssa.Value
+						ir.InfluencedBy(mu.Key, func(x ssa.Value) bool {
+							if ia, isIA := x.(*ssa.IndexAddr); isIA && elemIdx == nil {
+								elemIdx = ia.Index
+								return true
+							}
+							return false
+						})
+						a, okA := counterOffset(lf, elemIdx)
+						b, okB := counterOffset(lf, mu.Value)
+						okWin = okA && okB && off+a == b
+					}
+				}
+			}
+			if !okWin {
+				bad = append(bad, "headerIndex is built at "+c.at(in)+" from a slice that is not the one FetchHeaderAncestors returned (nor a window of it with the stored position shifted alike)")
 			}
 		})
 		sort.Strings(bad)
